@@ -60,7 +60,25 @@ def setup():
     import h5py
     from exetera.core.session import Session
     from exetera.core import dataframe as edf, dataset as eds
+    from exetera.core import data_writer
     _ex = (io, np, h5py, Session, edf, eds)
+
+    class _SyncThread:
+        """DataWriter starts a thread per write and joins it at once; run the target in place instead
+        (same order of effects; like threading, an exception in the target is printed, not raised)."""
+        def __init__(self, target=None, args=()):
+            self._t, self._a = target, args
+
+        def start(self):
+            try:
+                self._t(*self._a)
+            except Exception:  # noqa
+                import traceback
+                traceback.print_exc()
+
+        def join(self):
+            pass
+    data_writer.Thread = _SyncThread
 
 
 # ----------------------------------------------------------------------------------------- wire
@@ -99,9 +117,40 @@ def op_to_val(op):
     raise ValueError(k)
 
 
+_fix_c = None
+
+
+def repo_has_fix_c():
+    """Does IndexedStringField.__init__ of the tree under test still overwrite self._dataframe with None
+    (F-C15c, outside the property text: it makes moves of indexed-string fields fail, consistently)?  The model
+    covers both variants; which one is compared is read off the source."""
+    global _fix_c
+    if _fix_c is None:
+        v = os.environ.get('VERIF_C15_FIXC')
+        if v is not None:
+            _fix_c = int(v)
+        else:
+            import ast
+            repo = os.environ.get('VERIF_REPO', '/repo')
+            tree = ast.parse(open(os.path.join(repo, 'exetera', 'core', 'fields.py')).read())
+            found = False
+            for node in tree.body:
+                if isinstance(node, ast.ClassDef) and node.name == 'IndexedStringField':
+                    for fn in node.body:
+                        if isinstance(fn, ast.FunctionDef) and fn.name == '__init__':
+                            for st in ast.walk(fn):
+                                if (isinstance(st, ast.Assign) and isinstance(st.value, ast.Constant)
+                                        and st.value.value is None
+                                        and any(isinstance(t, ast.Attribute) and t.attr == '_dataframe' for t in st.targets)):
+                                    found = True
+            _fix_c = 0 if found else 1
+    return _fix_c
+
+
 def to_val(case):
     fa, fb = case.get('legacy', [1, 1])
-    return [fa, fb, [op_to_val(o) for o in case['ops']]]
+    init = case.get('init', [])
+    return [fa, fb, repo_has_fix_c(), len(init), [op_to_val(o) for o in init + case['ops']]]
 
 
 def _dec_h(h):
@@ -124,8 +173,9 @@ def _dec_view(v):
 
 
 def from_val(case, v):
-    steps, final = v
-    res = {'steps': [[code, _dec_obs(o), [bool(b) for b in fl]] for code, o, fl in steps],
+    steps, final, start = v
+    res = {'start': _dec_obs(start),
+           'steps': [[code, _dec_obs(o), [bool(b) for b in fl]] for code, o, fl in steps],
            'final': [[_dec_view(a), _dec_view(b), bool(ok)] for a, b, ok in final]}
     return res, 'SPEC'
 
@@ -247,18 +297,27 @@ def _type_code(ft):
 
 
 def _read(f):
-    np = _ex[1]
-    ft = f._field.attrs['fieldtype']
-    t = _type_code(ft)
+    """type and data through the field API"""
+    t = _type_code(f._field.attrs['fieldtype'])
     raw = f.data[:]
-    if t == 1:
-        dat = [int(x) for x in raw]
-    elif t == 2:
+    if t == 2:
         dat = [int(x.decode() if isinstance(x, bytes) else x) for x in raw]
-    elif t == 4:
-        dat = [int(x) for x in raw]
     else:
         dat = [int(x) for x in raw]
+    return t, dat
+
+
+def _read_raw(g):
+    """type and data of a field group straight from h5py (what is in the file)"""
+    t = _type_code(g.attrs['fieldtype'])
+    if t == 1:
+        idx = g['index'][:]
+        val = g['values'][:].tobytes().decode()
+        dat = [int(val[idx[k]:idx[k + 1]]) for k in range(len(idx) - 1)]
+    elif t == 2:
+        dat = [int(x.decode()) for x in g['values'][:]]
+    else:
+        dat = [int(x) for x in g['values'][:]]
     return t, dat
 
 
@@ -347,7 +406,7 @@ def _apply(op, dss):
         raise ValueError(k)
 
 
-def _observe(dss, held, seen):
+def _register(dss, held, seen):
     # register the field objects that are new in some catalogue
     for ds in dss:
         for dn, df in ds.items():
@@ -355,6 +414,10 @@ def _observe(dss, held, seen):
                 if id(f) not in seen:
                     seen.add(id(f))
                     held.append(f)
+
+
+def _observe(dss, held, seen):
+    _register(dss, held, seen)
     out = []
     for ds in dss:
         dfs = []
@@ -377,7 +440,7 @@ def _observe(dss, held, seen):
         assert len(parts) == 3 and parts[2] == nm, path
         fi = [k for k, ds in enumerate(dss) if f._field.file == ds._file]
         assert len(fi) == 1
-        t, dat = _read(f)
+        t, dat = _read_raw(f._field)
         hs.append([2, fi[0], parts[1], nm, t, dat])
     return [out, hs]
 
@@ -396,7 +459,11 @@ def run(case):
     dss = [s.open_dataset(bios[0], 'w', 'ds0'), s.open_dataset(bios[1], 'w', 'ds1')]
     held, seen = [], set()
     steps = []
+    for op in case.get('init', []):
+        _apply(op, dss)          # the fixed preamble (checked as a history of its own); not reported
+        _register(dss, held, seen)
     o = _observe(dss, held, seen)
+    start = o
     for op in case['ops']:
         code = 0
         try:
@@ -422,7 +489,7 @@ def run(case):
         fv = _view(ds)
         final.append([live[k], fv, live[k] == fv])
     s2.close()
-    return {'steps': steps, 'final': final}
+    return {'start': start, 'steps': steps, 'final': final}
 
 
 # ----------------------------------------------------------------------------------------- features
@@ -448,7 +515,7 @@ def features(case, model):
     f.add('len:%d' % min(len(ops), 9))
     if len(steps) < len(ops):
         f.add('stopped-at-first-broken-verdict')
-    prev = None
+    prev = model['start']
     for op, (code, o, fl) in zip(ops, steps):
         k = op[0]
         f.add('op:' + k + (':raises' if code else ''))
@@ -589,54 +656,63 @@ def gen(tier, rng):
 
 def _gen(tier, rng):
     big = tier == 'thorough'
+    # the preambles are histories of their own
+    yield {'ops': INIT1}
+    yield {'ops': INIT2}
     # (A) rename mappings, exhaustively
-    colsets = [['a', 'b'], ['b', 'a'], ['a', 'a_', 'b'], ['b', 'a_', 'a'], ['a_', 'a', 'a__'], ['a', 'a_', 'a__', 'b'],
-               ['b', 'a__', 'a', 'a_']]
+    colsets = [['a', 'b'], ['b', 'a'], ['a', 'a_', 'b'], ['b', 'a_', 'a'], ['a_', 'a', 'a__'], ['a', 'a_', 'a__', 'b']]
+    sampled = [['b', 'a__', 'a', 'a_']]
     if big:
-        colsets += [['x', 'a', 'b', 'a_'], ['a', 'b', 'x', 'a_', 'a__']]
-    for cols in colsets:
+        colsets += sampled + [['x', 'a', 'b', 'a_']]
+        sampled = [['a', 'b', 'x', 'a_', 'a__']]
+    for cols in colsets + sampled:
         init = _mk_frame(0, 'd', cols) + _mk_frame(0, 'e', ['a'], 5)
-        cap = None if (len(cols) <= 4) else 4000
+        yield {'ops': init}
+        cap = None if cols in colsets else (4000 if big else 300)
         for m in _renames(cols, FNAMES, rng, cap):
-            yield {'ops': init + [['rename', 0, 'd', m, 'dict']]}
+            yield {'init': init, 'ops': [['rename', 0, 'd', m, 'dict']]}
         for m in _renames(cols[:2], FNAMES):
-            yield {'ops': init + [['rename', 0, 'd', m + [['zz', 'a']], 'dict']]}
+            yield {'init': init, 'ops': [['rename', 0, 'd', m + [['zz', 'a']], 'dict']]}
     # rename followed by rename (chains of renames through temporary-looking names)
     cols = ['a', 'a_', 'b']
     init = _mk_frame(0, 'd', cols)
     ms = list(_renames(cols, ['a', 'a_', 'a__', 'b']))
     pairs = list(itertools.product(ms, ms))
-    for m1, m2 in rng.sample(pairs, 6000 if big else 1200):
-        m2 = [[k, v] for k, v in m2]
-        yield {'ops': init + [['rename', 0, 'd', m1, 'dict'], ['rename', 0, 'd', m2, 'dict']]}
+    for m1, m2 in rng.sample(pairs, 6000 if big else 500):
+        yield {'init': init, 'ops': [['rename', 0, 'd', m1, 'dict'], ['rename', 0, 'd', m2, 'dict']]}
     # (B) every single operation, full name alphabet, from two prepared states
     frames = [(0, 'd'), (0, 'd_'), (0, 'e'), (1, 'e'), (1, 'd')]
     full = _alphabet(frames, FNAMES, DNAMES, [0, 1])
     for init in (INIT1, INIT2):
         for op in full:
-            yield {'ops': init + [op]}
+            yield {'init': init, 'ops': [op]}
     # (C) every pair over a medium alphabet
-    med = _alphabet([(0, 'd'), (0, 'e')], ['a', 'a_'], ['d', 'e', 'd_'], [0, 1], targets=['a', 'a_', 'b'])
-    if not big:
-        med = [o for o in med if not (o[0] in ('create_df_from', 'ds_copy', 'ds_move', 'ds_setitem') and o[1] == 1 and o[3] == 1)]
+    if big:
+        med = _alphabet([(0, 'd'), (0, 'e')], ['a', 'a_'], ['d', 'e', 'd_'], [0, 1], targets=['a', 'a_', 'b'])
+    else:
+        med = _alphabet([(0, 'd'), (0, 'e')], ['a', 'a_'], ['d', 'e'], [0], targets=['a', 'a_', 'b'])
+        med = [o for o in med if o[0] not in ('add', 'delete_field', 'drop', 'ds_drop', 'ds_delete_df', 'require_df')
+               and not (o[0] in ('setitem', 'fcopy') and o[3] != 'a_')]
+        med += [['ds_move', 0, 'd', 1, 'd'], ['ds_setitem', 0, 'd_', 0, 'd'], ['ds_copy', 0, 'e', 0, 'd_', 'method']]
     for a, b in itertools.product(med, repeat=2):
-        yield {'ops': INIT1 + [a, b]}
+        yield {'init': INIT1, 'ops': [a, b]}
     # (D) every triple over a small alphabet
-    small = [['create', 0, 'd', 'x', 0, [90, 7]], ['delitem', 0, 'd', 'a'], ['drop', 0, 'e', 'a'],
+    small = [['create', 0, 'd', 'x', 0, [90, 7]], ['delitem', 0, 'd', 'a'],
              ['rename', 0, 'd', [['a', 'a_'], ['a_', 'a']], 'dict'], ['rename', 0, 'd', [['b', 'a']], 'single'],
              ['rename', 0, 'd', [['a', 'x']], 'single'], ['rename', 0, 'e', [['a', 'a_']], 'single'],
-             ['fmove', 0, 'd', 'a', 0, 'e', 'a_'], ['fmove', 0, 'e', 'a', 0, 'd', 'x'], ['fmove', 0, 'd', 'a_', 0, 'd', 'a'],
-             ['fcopy', 0, 'd', 'b', 0, 'e', 'b'], ['setitem', 0, 'e', 'a', 0, 'd', 'a'], ['add', 0, 'e', 0, 'd', 'a_'],
+             ['fmove', 0, 'd', 'a', 0, 'e', 'a_'], ['fmove', 0, 'e', 'a', 0, 'd', 'x'], ['fmove', 0, 'd', 'b', 0, 'd', 'a'],
+             ['fcopy', 0, 'd', 'b', 0, 'e', 'b'], ['setitem', 0, 'e', 'a', 0, 'd', 'a'],
              ['ds_setitem', 0, 'd_', 0, 'd'], ['ds_setitem', 0, 'e', 0, 'd'], ['ds_move', 0, 'd', 0, 'd_'],
-             ['ds_move', 0, 'e', 1, 'e'], ['ds_copy', 0, 'd', 1, 'd', 'method'], ['ds_delitem', 0, 'e'],
-             ['require_df', 0, 'd_'], ['create_df_from', 0, 'd_', 0, 'd']]
+             ['ds_move', 0, 'e', 1, 'e'], ['ds_delitem', 0, 'e']]
     if big:
         small += [['rename', 0, 'd_', [['a', 'b'], ['b', 'a_']], 'dict'], ['fmove', 1, 'e', 'a', 0, 'd', 'a'],
-                  ['ds_setitem', 0, 'd', 1, 'e'], ['delete_field', 0, 'd', 0, 'd', 'a'], ['ds_drop', 0, 'd']]
+                  ['ds_setitem', 0, 'd', 1, 'e'], ['delete_field', 0, 'd', 0, 'd', 'a'], ['ds_drop', 0, 'd'],
+                  ['drop', 0, 'e', 'a'], ['add', 0, 'e', 0, 'd', 'a_'], ['ds_copy', 0, 'd', 1, 'd', 'method'],
+                  ['require_df', 0, 'd_'], ['create_df_from', 0, 'd_', 0, 'd']]
     for t in itertools.product(small, repeat=3):
-        yield {'ops': INIT1 + list(t)}
+        yield {'init': INIT1, 'ops': list(t)}
     # (E) seeded random longer histories over the full alphabet, biased towards existing names
-    for _ in range(12000 if big else 1500):
+    for _ in range(12000 if big else 1000):
         n = rng.randint(4, 9)
         init = rng.choice([INIT1, INIT2, []])
         ops = []
@@ -650,7 +726,7 @@ def _gen(tier, rng):
                 if o[0] == 'create':
                     o = ['create', o[1], o[2], o[3], rng.randint(0, 4), [100 + k, k]]
                 ops.append(o)
-        yield {'ops': init + ops}
+        yield {'init': init, 'ops': ops}
 
 
 def shrink(case):
